@@ -17,6 +17,26 @@ CH_NOTE = ("Trusted: CPython, CrossHair 0.0.110's models of int/bool/str primiti
            "replayed under /venv/bin/python without CrossHair before it is reported.")
 
 CLAIMS = {
+    'C16': dict(
+        engine='CH',
+        technique='solver-driven path exploration of the real scanner pipeline with CrossHair/z3 over permutation '
+                  'indices (iteration order of every set, order of comment blocks, dump nodes and declarations); '
+                  'byte comparison of the emitted GIR; counterexamples replayed concretely',
+        category='model_checking',
+        text='Partial claim. The channels through which the hash seed and the input order can reach the output are '
+             'made explicit and explored exhaustively on one rich scenario (three compounds with typedef and body in '
+             'different files, a class with class struct, virtual slot, properties and signals from the dump, '
+             'functions from several files, enum, constants, alias, callback, two includes, packages, c:includes, six '
+             'comment blocks from three files incl. three SECTION blocks and unknown parameters): (a) every set created '
+             'in the scanner modules iterates in each of the 120 permutations; (b) all 720 orders of the comment '
+             'blocks x orders of the dump children; (c) the declaration groups with any two swapped, rotated and '
+             'reversed (typedef before/after the body for every compound); (d) sibling order is aliases first then by '
+             'name for every triple of names/kinds. The emitted bytes must be identical. The same scenario is also run '
+             'in fresh interpreters under five PYTHONHASHSEED values (concrete).',
+        design_ref='DESIGN.md section 4, C16',
+        note=CH_NOTE + ' Finite-choice inputs are fixed by solver-decided binary search (vlib/sym.py). Not covered: '
+             'set displays and sets inside library code, id()-based hashes, cold vs warm cache (pickle round trip), '
+             'dependency GIR parse order, other scenarios than the one built here.'),
     'C03': dict(
         engine='CH',
         technique='solver-driven path exploration of the real scanner pipeline with CrossHair/z3 (finite-choice '
